@@ -165,3 +165,16 @@ pub fn yield_threads(n: usize) {
         crate::sim::par_enter(t, Call::Other);
     }
 }
+
+/// Did an injected EINTR fire in this run?
+pub fn eintr_fired() -> bool {
+    sim().k.fcount.fired.get("eintr").copied().unwrap_or(0) > 0
+}
+
+/// Is this the error of an interrupted system call (legitimate only when one was injected)?
+pub fn is_eintr(e: &subprocess::PopenError) -> bool {
+    match e {
+        subprocess::PopenError::IoError(io) => io.raw_os_error() == Some(libc::EINTR) || io.kind() == std::io::ErrorKind::Interrupted,
+        _ => false,
+    }
+}
